@@ -330,12 +330,12 @@ def make_zip(members):
     return buf.getvalue()
 
 
-def make_pdf(lines):
+def make_pdf(lines, resources_extra=b""):
     """One-page PDF, Helvetica, one text line per `lines` entry (uncompressed content stream, valid xref)."""
     esc = lambda t: t.replace("\\", "\\\\").replace("(", "\\(").replace(")", "\\)")
     content = ("BT /F1 11 Tf 72 740 Td 14 TL\n" + "\n".join(f"({esc(l)}) Tj T*" for l in lines) + "\nET").encode("latin-1", "replace")
     objs = [b"<< /Type /Catalog /Pages 2 0 R >>", b"<< /Type /Pages /Kids [3 0 R] /Count 1 >>",
-            b"<< /Type /Page /Parent 2 0 R /MediaBox [0 0 612 792] /Contents 5 0 R /Resources << /Font << /F1 4 0 R >> >> >>",
+            b"<< /Type /Page /Parent 2 0 R /MediaBox [0 0 612 792] /Contents 5 0 R /Resources << /Font << /F1 4 0 R >> " + resources_extra + b" >> >>",
             b"<< /Type /Font /Subtype /Type1 /BaseFont /Helvetica /Encoding /WinAnsiEncoding >>",
             b"<< /Length %d >>\nstream\n" % len(content) + content + b"\nendstream"]
     out, offs = bytearray(b"%PDF-1.4\n"), []
@@ -445,6 +445,9 @@ def generated_corpus(tmp):
     # PDFs with tables that share row labels but not vocabulary
     for k, (lab, lines) in enumerate(TABLE_PAGES.items()):
         add(f"pdf {lab}", f"table{k}.pdf", make_pdf(lines))
+    # PDFs whose text extracts but whose page resources are malformed (the failure comes AFTER the text of the page was produced)
+    for k, extra in enumerate([b"/XObject [ ]", b"/XObject 7", b"/XObject /Name", b"/XObject << /Im0 9 0 R >>", b"/XObject << /Im0 << /Subtype /Image >> >>", b"/ExtGState 3"]):
+        add(f"pdf with malformed resources {extra.decode()}", f"badres{k}.pdf", make_pdf(["Some text before the damage.", "Total cashflow 1 2"], extra))
     # archives: the same base names in different directories / under system prefixes, in both container formats
     members_mac = [("__MACOSX/summary.txt", "resource fork junk"), ("__MACOSX/._notes.txt", "junk"), ("notes.txt", "real notes")]
     members_plain = [("reports/summary.txt", "the real summary"), ("reports/notes.txt", "other notes"), (".hidden/summary.txt", "x")]
@@ -692,6 +695,19 @@ def history_search(docs=None, extra_note=""):
         def alone(p):
             before = dict(global_state(), **package_state())
             d = digest(sharepoint2text, p)
+            # a failed extraction whose exception the caller KEEPS (error list, batch report, logging with exc_info): the state must
+            # be back although the traceback still references the library's frames
+            held = []
+            try:
+                ex = sharepoint2text.get_extractor(p)
+                list(ex(io.BytesIO(open(p, "rb").read()), p))
+            except Exception as exc:  # noqa
+                held.append(exc)
+            if held:
+                leaks = [m for m in state_diff(before, dict(global_state(), **package_state())) if m[0] != "open_fds"]
+                if leaks:
+                    return [d, [(leaks[0][0], leaks[0][1] + " (while the caller still holds the raised exception)")]]
+            del held
             # a generator abandoned half-way (the caller stops iterating) must clean up as well
             try:
                 ex = sharepoint2text.get_extractor(p)
